@@ -101,12 +101,12 @@ func (c *Case) goEpilogue(v Variant) string {
 	for _, k := range c.NestInput2 {
 		inner2 = append(inner2, fmt.Sprint(k))
 	}
-	sb.WriteString("var vhInner = []int{" + strings.Join(inner, ", ") + "}\nvar vhInner2 = []int{" + strings.Join(inner2, ", ") + "}\nvar vhDepth int\nvar vhRunNo int\n")
+	sb.WriteString("var vhInner = []int{" + strings.Join(inner, ", ") + "}\nvar vhInner2 = []int{" + strings.Join(inner2, ", ") + "}\nvar vhDepth int\nvar vhRunNo int\nvar vhNestRed int\n")
 	// one or two parses within ONE nested level, re-initialised in between (PushContex; ParserInit; Parser; [ParserInit; Parser;]
 	// PopContex): every second top-level parse of a process does it twice - what the outer parse shows must not depend on that
-	nestCall := "PushContex()\n\tfor round := 0; round < 1+vhRunNo%2; round++ {\n\tres = \"nil\"\n\tParserInit()\n\tfunc() {\n\t\tdefer func() {\n\t\t\tif r := recover(); r != nil {\n\t\t\t\tres = \"rejected\"\n\t\t\t}\n\t\t}()\n\t\tif v := Parser(vhInnerName()); v != nil {\n\t\t\tres = \"accepted \" + vhShow(v)\n\t\t}\n\t}()\n\t}\n\tPopContex()"
+	nestCall := "PushContex()\n\tfor round := 0; round < 1+vhRunNo%2; round++ {\n\tres = \"nil\"\n\tParserInit()\n\tfunc() {\n\t\tdefer func() {\n\t\t\tif r := recover(); r != nil {\n\t\t\t\tres = \"rejected\"\n\t\t\t\tif fmt.Sprint(r) == \"vh-nested-diverge\" {\n\t\t\t\t\tres = \"diverged\"\n\t\t\t\t}\n\t\t\t}\n\t\t}()\n\t\tif v := Parser(vhInnerName()); v != nil {\n\t\t\tres = \"accepted \" + vhShow(v)\n\t\t}\n\t}()\n\t}\n\tPopContex()"
 	if v.Object {
-		nestCall = "func() {\n\t\tdefer func() {\n\t\t\tif r := recover(); r != nil {\n\t\t\t\tres = \"rejected\"\n\t\t\t}\n\t\t}()\n\t\tif v := MakeParserContext().Parser(vhInnerName()); v != nil {\n\t\t\tres = \"accepted \" + vhShow(v)\n\t\t}\n\t}()"
+		nestCall = "func() {\n\t\tdefer func() {\n\t\t\tif r := recover(); r != nil {\n\t\t\t\tres = \"rejected\"\n\t\t\t\tif fmt.Sprint(r) == \"vh-nested-diverge\" {\n\t\t\t\t\tres = \"diverged\"\n\t\t\t\t}\n\t\t\t}\n\t\t}()\n\t\tif v := MakeParserContext().Parser(vhInnerName()); v != nil {\n\t\t\tres = \"accepted \" + vhShow(v)\n\t\t}\n\t}()"
 	}
 	sb.WriteString(`
 func vhInnerName() string {
@@ -124,6 +124,9 @@ func vhNest() {
 		return
 	}
 	vhDepth++
+	if vhDepth == 1 {
+		vhNestRed = 0
+	}
 	saveRed := vhRed
 	res := "nil"
 	if vhDepth == 1 {
@@ -141,6 +144,11 @@ func vhNest() {
 	sb.WriteString(`
 func vhLogR(i int) {
 	if vhDepth > 0 {
+		// a nested parse of a grammar with conflicts may reduce for ever, like any other: cut it off
+		vhNestRed++
+		if vhNestRed > 20000 {
+			panic("vh-nested-diverge")
+		}
 		return
 	}
 	vhRed++
@@ -406,6 +414,18 @@ func Valuate(c *Case, r *rand.Rand, valued bool) {
 		}
 		seenTok[c.Tokens[i].Sym()] = true
 	}
+	if c.Family == "long" {
+		// the long rule's first and tenth symbol carry different tags of the same Go type ($1 and $10 read different union
+		// fields; a mix-up compiles and shows only in the value)
+		for i := range c.Tokens {
+			switch c.Tokens[i].Name {
+			case "a":
+				c.Tokens[i].Tag = "ia"
+			case "b":
+				c.Tokens[i].Tag = "ib"
+			}
+		}
+	}
 	for i := range c.Rules {
 		ru := &c.Rules[i]
 		lt := c.tagOf(ru.Lhs)
@@ -424,7 +444,7 @@ func Valuate(c *Case, r *rand.Rand, valued bool) {
 		}
 		var args []int
 		for j, s := range ru.Rhs {
-			if c.tagOf(s) != "" && r.Intn(4) != 0 {
+			if c.tagOf(s) != "" && (r.Intn(4) != 0 || (c.Family == "long" && (j == 0 || j == 9))) {
 				args = append(args, j+1)
 			}
 		}
